@@ -592,7 +592,11 @@ func init() {
 				for _, e := range in.Evs {
 					texts = append(texts, e.Text)
 				}
-				w.write(runSession(in.ID, texts, in.Kind != "alone"))
+				sc := runSession(in.ID, texts, in.Kind != "alone")
+				if in.Kind == "alone" {
+					sc.Kind = "alone"
+				}
+				w.write(sc)
 			})
 			return 0
 		}
